@@ -7,12 +7,52 @@ pub mod c19;
 pub mod concprops;
 pub mod crashprops;
 pub mod seqprops;
+pub mod synthrec;
 
 use crate::env::Tier;
 
 pub fn dispatch(id: &str, tier: Tier, seed: u64, replay: Option<&str>) -> i32 {
     match id {
-        "C01" | "C05" | "C10" | "C11" | "C12" | "C13" | "C14" => seqprops::run(id, tier, seed, replay),
+        "C01" | "C05" | "C10" | "C12" => seqprops::run(id, tier, seed, replay),
+        "C14" => {
+            if let Some(path) = replay {
+                let text = std::fs::read_to_string(path).unwrap_or_default();
+                if text.contains("conc:C14D") {
+                    return concprops::replay_sub("C14D", path);
+                }
+                return seqprops::run(id, tier, seed, replay);
+            }
+            let code = seqprops::run(id, tier, seed, None);
+            let (ucode, ev) = concprops::run_campaign("C14D", "C14", tier, seed);
+            fold_into_evidence("C14", "concurrent_scans", concprops::sub_summary(&ev), "executions", ucode);
+            code.max(ucode)
+        }
+        "C13" => {
+            if let Some(path) = replay {
+                let text = std::fs::read_to_string(path).unwrap_or_default();
+                if text.contains("\"crash_accounting\"") {
+                    return crashprops::replay_accounting(path);
+                }
+                return seqprops::run(id, tier, seed, replay);
+            }
+            let code = seqprops::run(id, tier, seed, None);
+            let (ucode, summary) = crashprops::accounting_campaign(tier, seed);
+            fold_into_evidence("C13", "recovery_of_crash_images", summary, "images", ucode);
+            code.max(ucode)
+        }
+        "C11" => {
+            if let Some(path) = replay {
+                let text = std::fs::read_to_string(path).unwrap_or_default();
+                if text.contains("\"synth_recovery\"") {
+                    return synthrec::replay(path);
+                }
+                return seqprops::run(id, tier, seed, replay);
+            }
+            let code = seqprops::run(id, tier, seed, None);
+            let (ucode, summary) = synthrec::campaign("C11", tier, seed);
+            fold_into_evidence("C11", "recovery_of_synthesised_images", summary, "images", ucode);
+            code.max(ucode)
+        }
         "C16" => {
             if let Some(path) = replay {
                 let text = std::fs::read_to_string(path).unwrap_or_default();
@@ -55,6 +95,26 @@ pub fn dispatch(id: &str, tier: Tier, seed: u64, replay: Option<&str>) -> i32 {
         _ => {
             eprintln!("fxv: no check registered for {id}");
             64
+        }
+    }
+}
+
+/// Add a secondary campaign's summary (and its counts) to an evidence file already written.
+pub fn fold_into_evidence(id: &str, key: &str, summary: serde_json::Value, count_key: &str, code: i32) {
+    let path = crate::env::verif_root().join(format!("evidence/{id}.json"));
+    if let Ok(text) = std::fs::read_to_string(&path) {
+        if let Ok(mut doc) = serde_json::from_str::<serde_json::Value>(&text) {
+            let add = summary[count_key].as_u64().unwrap_or(0);
+            let ntadd = summary["distinct_nontrivial"].as_u64().unwrap_or(0);
+            if let Some(c) = doc.get_mut("coverage") {
+                c["evaluations"] = serde_json::json!(c["evaluations"].as_u64().unwrap_or(0) + add);
+                c["distinct_nontrivial"] = serde_json::json!(c["distinct_nontrivial"].as_u64().unwrap_or(0) + ntadd);
+                c[key] = summary;
+            }
+            if code == 1 {
+                doc["violations"] = serde_json::json!(doc["violations"].as_u64().unwrap_or(0) + 1);
+            }
+            let _ = std::fs::write(&path, serde_json::to_vec_pretty(&doc).unwrap());
         }
     }
 }
